@@ -472,6 +472,9 @@ pub fn run(tier: Tier) -> i32 {
             want.sort();
             let got: Option<Vec<(String, i64)>> = rep.as_ref().map(|r| {
                 let mut g = crate::report::parse_report(r, &tb).entries.get(&pat).cloned().unwrap_or_default();
+                for e in g.iter_mut() {
+                    e.0 = fsx::base_name(&e.0);
+                }
                 g.sort();
                 g
             });
